@@ -445,7 +445,8 @@ class ExprFormatted(Expr):
 
     def iterate(self, *, flat: bool = True) -> Iterator[str | Expr]:
         yield "{"
-        yield from _yield(self.value, flat=flat)
+        # The colon of a bare lambda would start the format specification (`ast.unparse` does the same).
+        yield from _yield(_operand(self.value, _OR), flat=flat)
         if self.conversion:
             yield f"!{self.conversion}"
         if self.format_spec is not None:
